@@ -14,6 +14,10 @@ use std::time::Duration;
 
 #[derive(Clone, Debug, Serialize, Deserialize, Hash)]
 pub struct GResp {
+    /// the host ends the connection with this response: `Connection: close` on a fully framed response (sequential
+    /// connections only); a well-behaved client then continues on a new connection
+    #[serde(default)]
+    pub host_closes: bool,
     pub status: u16,
     pub headers: Vec<(String, String)>,
     pub body: Vec<u8>,
@@ -70,9 +74,10 @@ pub fn gresp() -> impl Strategy<Value = GResp> {
         prop::collection::vec(1usize..3000, 0..4),
         prop::collection::vec(1usize..2000, 0..4),
         prop_oneof![4 => Just(0u64), 1 => 50u64..400],
-        prop_oneof![3 => Just(0u8), 1 => Just(5u8), 1 => Just(2u8), 1 => 1u8..40],
+        (prop_oneof![3 => Just(0u8), 1 => Just(5u8), 1 => Just(2u8), 1 => 1u8..40], prop::bool::weighted(0.12)),
     )
-        .prop_map(|(status, hs, body, framing, chunk_sizes, pieces, pause_us, tail_split)| GResp {
+        .prop_map(|(status, hs, body, framing, chunk_sizes, pieces, pause_us, (tail_split, host_closes))| GResp {
+            host_closes,
             status,
             headers: hs.into_iter().map(|(i, m, v)| (gen::flip_case(RESP_HNAMES[i], m), v)).collect(),
             body,
@@ -180,7 +185,7 @@ pub fn storm_strategy() -> impl Strategy<Value = Case> {
         .prop_map(|(conns, key)| Case { conns: conns.into_iter().map(|(rec, exchanges, rounds)| ConnPlan { rec, exchanges, burst: false, rounds }).collect(), key })
 }
 
-pub const RULE: &str = "generator: 1-3 client connections run concurrently, each attributed to an authorised caller/destination and carrying 1-4 requests on one keep-alive connection (sequentially, or all written before any response is read, or - with small bodies - the list repeated 8-39 times back to back: a keep-alive storm): method in {GET,POST,PUT,DELETE,PATCH,HEAD,OPTIONS}, target (12% of the requests are the two signature-exempt uploads PUT /vmAgentLog and POST /machine/?comp=telemetrydata in any letter case), header multiset (a third of the requests repeat a header name two or three times), body 0 bytes .. exactly the 100 KiB limit (up to 300 KiB on the exempt uploads) as Content-Length or chunked with generated chunk sizes and write boundaries; host responses: status from 200..599 (no 1xx), header multiset incl. repeated Set-Cookie and a host-side x-ms-azure-host-claims, body 0..400 KB binary as Content-Length / chunked with generated chunk sizes / close-delimited, written in generated pieces with optional pauses, the last bytes (e.g. the chunked terminator) optionally in a separate late write. Every request and response carries a unique tag. oracle: host side - method, target, de-framed body byte-equal, client header lines other than the three proxy-owned names equal as a multiset with order kept among equal names; client side - status, header lines plus exactly one x-ms-azure-host-authorization marker, body byte-equal, response tag = request tag; framing headers, Connection and Date exempt on both legs. non-trivial: an exchange with non-empty bodies in both directions and a multi-frame response, or >= 3 requests on one connection with >= 2 connections active; distinct by hash of the case.";
+pub const RULE: &str = "generator: 1-3 client connections run concurrently, each attributed to an authorised caller/destination and carrying 1-4 requests on one keep-alive connection (sequentially, or all written before any response is read, or - with small bodies - the list repeated 8-39 times back to back: a keep-alive storm): method in {GET,POST,PUT,DELETE,PATCH,HEAD,OPTIONS}, target (12% of the requests are the two signature-exempt uploads PUT /vmAgentLog and POST /machine/?comp=telemetrydata in any letter case), header multiset (a third of the requests repeat a header name two or three times), body 0 bytes .. exactly the 100 KiB limit (up to 300 KiB on the exempt uploads) as Content-Length or chunked with generated chunk sizes and write boundaries; host responses: status from 200..599 (no 1xx), header multiset incl. repeated Set-Cookie and a host-side x-ms-azure-host-claims, body 0..400 KB binary as Content-Length / chunked with generated chunk sizes / close-delimited, written in generated pieces with optional pauses, 12% of the fully framed responses on sequential connections carry 'Connection: close' and the host closes (the client, told so, continues on a new connection), the last bytes (e.g. the chunked terminator) optionally in a separate late write. Every request and response carries a unique tag. oracle: host side - method, target, de-framed body byte-equal, client header lines other than the three proxy-owned names equal as a multiset with order kept among equal names; client side - status, header lines plus exactly one x-ms-azure-host-authorization marker, body byte-equal, response tag = request tag; framing headers, Connection and Date exempt on both legs. non-trivial: an exchange with non-empty bodies in both directions and a multi-frame response, or >= 3 requests on one connection with >= 2 connections active; distinct by hash of the case.";
 
 const EXEMPT: &[&str] = &["content-length", "transfer-encoding", "connection", "keep-alive", "date", "te", "trailer", "upgrade"];
 const PROXY_OWNED: &[&str] = &["x-ms-azure-host-claims", "x-ms-azure-host-date", "x-ms-azure-host-authorization"];
@@ -216,7 +221,12 @@ pub fn eval(rig: &Rig, case: &Case, stats: &mut Stats) -> Outcome {
             let tag = format!("c{}e{}r{}", ci, ei, round);
             let mut headers: Vec<(String, Vec<u8>)> = e.resp.headers.iter().map(|(n, v)| (n.clone(), v.as_bytes().to_vec())).collect();
             headers.push(("x-resp-tag".into(), tag.as_bytes().to_vec()));
+            let host_closes = e.resp.host_closes && !c.burst && c.rounds.max(1) == 1 && e.resp.framing != 2 && !(100..200).contains(&e.resp.status);
+            if host_closes {
+                headers.push(("Connection".into(), b"close".to_vec()));
+            }
             let spec = ResponseSpec {
+                close_after: host_closes,
                 status: e.resp.status,
                 reason: "Generated".into(),
                 headers,
@@ -282,7 +292,15 @@ pub fn eval(rig: &Rig, case: &Case, stats: &mut Stats) -> Outcome {
                         for round in 0..rounds {
                             for (ei, e) in c.exchanges.iter().enumerate() {
                                 conn.send_pieces(&wire_of(ei, round), &e.req_pieces).map_err(|e| format!("send: {}", e))?;
-                                responses.push(conn.read(&e.req.method, Duration::from_secs(30)).map_err(|e| format!("{:?}", e)));
+                                let r = conn.read(&e.req.method, Duration::from_secs(30)).map_err(|e| format!("{:?}", e));
+                                // a well-behaved client: told that the connection ends here, it goes on with a new one
+                                let told_to_close = r.as_ref().map(|r| r.head.get("connection").map(|v| v.eq_ignore_ascii_case(b"close")).unwrap_or(false)).unwrap_or(false);
+                                responses.push(r);
+                                if told_to_close && (ei + 1 < c.exchanges.len() || round + 1 < rounds) {
+                                    let old = std::mem::replace(&mut conn, rig.open(Some(rig.entry_of(&c.rec)), 0)?);
+                                    crate::rawhttp::close_abortive(old.stream);
+                                    let _ = conn.stream.set_write_timeout(Some(Duration::from_secs(30)));
+                                }
                             }
                         }
                     }
